@@ -32,9 +32,12 @@ def run(c):
         "the verifPoint call sites in cache.go are the patch repo-patches/loadercache/0001 (add-only); without them the harness "
         "cannot observe the steps and the check reports the correspondence as broken"]
     c.coverage["rule"] = (
+        "hook-free judge first (VerifHook unset; only Cache().once is used, also to observe the cache's content): every sequential "
+        "call sequence up to length 4 over 2 keys with ok/fail callables and 3000 (thorough 60000) free-running configurations of <=8 "
+        "callers x <=4 calls x 3 keys. Then, for the trace correspondence: "
         "controlled scheduler over the real goroutines calling the real Starlark builtin Cache().once: EVERY interleaving of all "
         "configurations of 1-3 callers x 2 keys x ok/fail callables with one call per caller, and of all configurations of <=2 callers "
-        "with up to two calls each (thorough: also 60 seeded configurations of 3 callers with up to two calls each, at most 30000 interleavings each); seeded random and "
+        "with up to two calls each (quick: every second pair in which both callers make two calls; thorough: all pairs, also 60 seeded configurations of 3 callers with up to two calls each, at most 30000 interleavings each); seeded random and "
         "PCT schedules of random configurations of <=4 callers x <=3 calls x 3 keys; free-running (uncontrolled) runs of <=8 callers x <=4 "
         "calls x 3 keys. Every run is judged (successful invocations per key <= 1, all returns equal that value, a failure leaves the key "
         "absent, a later call retries / reuses); every 7th (thorough: 23rd) exhaustive trace and every random, PCT and free-running trace is validated "
@@ -57,11 +60,19 @@ def run(c):
                 c.violation("the cache harness did not finish: callers hang",
                             {"input": {"progs": "(unknown: harness timed out)", "mode": "free", "schedule": []}})
         c.coverage["harness_stats"] = stats
+        if stats.get("controller_derailed"):
+            c.broken.append("correspondence cache.sched: the hook-driven controller lost track of the goroutines on %d configurations "
+                            "although the same callers finish without hooks (the verifPoint call sites no longer match the "
+                            "protocol of harness/cache)" % stats["controller_derailed"])
         if drv:
             for stream, ps in sorted(pairs.items()):
                 c.correspond(stream, drv, ps)
             if not pairs.get("cache.sched") or not pairs.get("cache.stress") or not pairs.get("cache.outcomes"):
                 c.broken.append("correspondence cache.*: the harness produced no traces (hooks missing?)")
+        c.count("cache.judge-nohook", stats.get("nohook_sequential", 0) + stats.get("nohook_concurrent", 0),
+                sample={"stream": "VerifHook unset, public builtin only: all %d sequential call sequences of length <=4 over 2 keys x "
+                                  "ok/fail, then %d free-running concurrent configurations; same judge"
+                                  % (stats.get("nohook_sequential", 0), stats.get("nohook_concurrent", 0))})
         c.count("cache.judge", stats.get("judged_runs", 0),
                 sample={"judge": "per key: successful callable invocations <= 1; every value returned for the key is that "
                                  "invocation's; an error is returned only by a call whose own callable failed; a key whose "
